@@ -326,6 +326,12 @@ class Result:
             ),
             assumptions=self.assumptions, wall_s=round(wall, 2), violations=len(self.violations) + (1 if (self.tie_broken and not self.violations) else 0),
         )
+        if not self.discharged:
+            # a proof-level evidence file must not claim zero discharged obligations: fall back to the
+            # generic keys and say what failed
+            cov = ev['coverage']
+            cov['proof_obligations_not_discharged'] = cov.pop('obligations')
+            cov.pop('discharged')
         os.makedirs(os.path.join(VERIF, 'evidence'), exist_ok=True)
         with open(os.path.join(VERIF, 'evidence', f'{self.prop}.json'), 'w') as f:
             json.dump(ev, f, indent=1, default=repr)
